@@ -2,6 +2,8 @@ package asm
 
 import (
 	"fmt"
+	"strconv"
+	"strings"
 
 	"github.com/llir/ll/ast"
 	asmenum "github.com/llir/llvm/asm/enum"
@@ -38,28 +40,40 @@ func (gen *generator) indexTopLevelEntities(old *ast.Module) error {
 			}
 			gen.old.comdatDefs[name] = entity
 		case *ast.GlobalDecl:
-			ident := giveUnnamedIdentID(globalIdent(entity.Name()), &id)
+			ident, err := giveUnnamedIdentID(globalIdent(entity.Name()), entity.Name().Text(), &id)
+			if err != nil {
+				return errors.WithStack(err)
+			}
 			if prev, ok := gen.old.globals[ident]; ok {
 				return errors.Errorf("global identifier %q already present; prev `%s`, new `%s`", ident.Ident(), text(prev), text(entity))
 			}
 			gen.old.globals[ident] = entity
 			gen.old.globalOrder = append(gen.old.globalOrder, ident)
 		case *ast.IndirectSymbolDef:
-			ident := giveUnnamedIdentID(globalIdent(entity.Name()), &id)
+			ident, err := giveUnnamedIdentID(globalIdent(entity.Name()), entity.Name().Text(), &id)
+			if err != nil {
+				return errors.WithStack(err)
+			}
 			if prev, ok := gen.old.globals[ident]; ok {
 				return errors.Errorf("global identifier %q already present; prev `%s`, new `%s`", ident.Ident(), text(prev), text(entity))
 			}
 			gen.old.globals[ident] = entity
 			gen.old.globalOrder = append(gen.old.globalOrder, ident)
 		case *ast.FuncDecl:
-			ident := giveUnnamedIdentID(globalIdent(entity.Header().Name()), &id)
+			ident, err := giveUnnamedIdentID(globalIdent(entity.Header().Name()), entity.Header().Name().Text(), &id)
+			if err != nil {
+				return errors.WithStack(err)
+			}
 			if prev, ok := gen.old.globals[ident]; ok {
 				return errors.Errorf("global identifier %q already present; prev `%s`, new `%s`", ident.Ident(), text(prev), text(entity))
 			}
 			gen.old.globals[ident] = entity
 			gen.old.globalOrder = append(gen.old.globalOrder, ident)
 		case *ast.FuncDef:
-			ident := giveUnnamedIdentID(globalIdent(entity.Header().Name()), &id)
+			ident, err := giveUnnamedIdentID(globalIdent(entity.Header().Name()), entity.Header().Name().Text(), &id)
+			if err != nil {
+				return errors.WithStack(err)
+			}
 			if prev, ok := gen.old.globals[ident]; ok {
 				return errors.Errorf("global identifier %q already present; prev `%s`, new `%s`", ident.Ident(), text(prev), text(entity))
 			}
@@ -93,14 +107,21 @@ func (gen *generator) indexTopLevelEntities(old *ast.Module) error {
 	return nil
 }
 
-// giveUnnamedIdentID assigns an unused ID to the global identifier if unnamed.
-func giveUnnamedIdentID(ident ir.GlobalIdent, id *int64) ir.GlobalIdent {
+// giveUnnamedIdentID assigns the next unused ID to the global identifier if
+// unnamed. An ID written in the source (e.g. `@1`, as opposed to the empty name
+// `@""`) must be that very ID: unnamed global entities are numbered in the
+// order they are defined, as LLVM requires; a repeated or out-of-order ID is an
+// error, not a definition to be renumbered.
+func giveUnnamedIdentID(ident ir.GlobalIdent, text string, id *int64) (ir.GlobalIdent, error) {
 	if ident.IsUnnamed() {
+		if written, err := strconv.ParseInt(strings.TrimPrefix(text, "@"), 10, 64); err == nil && written != *id {
+			return ident, errors.Errorf("invalid global ID, expected %s, got %s", enc.GlobalID(*id), enc.GlobalID(written))
+		}
 		// Assign next unused ID to unnamed global identifier.
 		ident.SetID(*id)
 		*id++
 	}
-	return ident
+	return ident, nil
 }
 
 // === [ Create and index IR ] =================================================
